@@ -132,7 +132,9 @@ static bool relevant(const std::string& prop, const std::string& vprops, const C
     const uint8_t k = e.last.k;
     if (prop == "C17") return (in_fault || e.fault_seen) && (generic || mem || has_prop(vprops, "C06") || has_prop(vprops, "C07"));
     // (also behind a reserve that failed: the vector still has to be what its capacity() says)
-    if (prop == "C10" && !in_fault) return (generic || mem) && (k == O_RS || e.fill_phase || (e.fault_seen && (k == O_EB || k == O_FILL)));
+    // and an emplace_back somewhere behind a growing reserve: the reserved room has to be usable
+    if (prop == "C10" && !in_fault)
+        return (generic || mem) && (k == O_RS || e.fill_phase || ((e.fault_seen || e.seen_rs_grow) && (k == O_EB || k == O_FILL || k == O_EBS)));
     if (in_fault || e.fault_seen) return false;
     if (prop == "C01") return generic && is_c01_op(k) && !e.seen_pair_op;
     if (prop == "C02") return mem || has_prop(vprops, "CRASH");
@@ -140,7 +142,9 @@ static bool relevant(const std::string& prop, const std::string& vprops, const C
     // overwritten while alive (the only way the clause is observable for trivial value types)
     if (prop == "C06") return has_prop(vprops, "VAL") && !is_ref_op(k);
     // (an AddressSanitizer report inside a copy/move/swap counts as well: the operation did not produce an independent copy)
-    if (prop == "C09") return (generic && (is_pair_op(k) || e.seen_pair_op)) || (mem && is_pair_op(k));
+    // and after swap the allocator/ownership monitors: "swap exchanges the complete contents"
+    if (prop == "C09")
+        return (generic && (is_pair_op(k) || e.seen_pair_op)) || (mem && is_pair_op(k)) || (k == O_SW && has_prop(vprops, "C08"));
     if (prop == "C10") return (generic || mem) && (k == O_RS || e.fill_phase);
     if (prop == "C11") return (generic && is_ref_op(k)) || false;
     if (prop == "C12") return (generic || mem) && is_elem_op(k);
